@@ -288,6 +288,29 @@ def run(a, res):
         info["procs"] = len(set(l.split()[1] for l in logtxt.splitlines() if len(l.split()) > 1))
         return info
 
+    def cause_of_foreign_bytes(key, got, rp, d, path, rid, typ, info, wit):
+        """sub-key for a hit whose bytes differ from the origin's: where do the foreign bytes come from? (rock only)"""
+        if key != "hit-body-differs" or not typ.startswith("rock"):
+            return ""
+        torn = info.get("torn_prefix")
+        if torn is None:
+            import re as _re
+            mt = _re.search(r"prefix=(\d+) \(INJECTED\)", info.get("last", ""))
+            torn = int(mt.group(1)) if (mt and wit.get("partial")) else 0
+        if torn >= 40:
+            # the kill tore ONE slot write behind its 40-byte DbCellHeader: the header (payload size, chain links) is on disk,
+            # its payload only partly; rock has no payload checksum
+            return ":write-torn-behind-the-slot-header"
+        # a slot left over from ANOTHER version of the same URL (same key) sits where the new chain's missing slot belongs:
+        # the rebuild compares keys only (RockRebuild.cc sameEntry(): "we can only compare the keys")
+        probe = got[d + 8:d + 72]
+        with lock:
+            others = [o for r_, o in issued.get(path, {}).items() if r_ != rid]
+        for o in others:
+            if len(probe) >= 32 and probe in o.body:
+                return ":spliced-with-another-version-of-the-url"
+        return ""
+
     def restart_and_verify(info, wit, feat):
         sq = info["sq"]
         typ = info["typ"]
@@ -361,27 +384,7 @@ def run(a, res):
                     if m.body != rp.body:
                         d = next((k for k in range(min(len(m.body), len(rp.body))) if m.body[k] != rp.body[k]), min(len(m.body), len(rp.body)))
                         key = "hit-truncated-served-as-complete" if rp.body.startswith(m.body) else "hit-body-differs"
-                        torn = info.get("torn_prefix")
-                        if torn is None:
-                            import re as _re
-                            mt = _re.search(r"prefix=(\d+) \(INJECTED\)", info.get("last", ""))
-                            torn = int(mt.group(1)) if (mt and wit.get("partial")) else 0
-                        if key == "hit-body-differs" and typ.startswith("rock") and torn >= 40:
-                            # the kill tore ONE slot write behind its 40-byte DbCellHeader: the header (payload size, chain links)
-                            # is on disk, its payload only partly; rock has no payload checksum
-                            key += ":write-torn-behind-the-slot-header"
-                        elif key == "hit-body-differs" and len(m.body) == len(rp.body):
-                            # where do the foreign bytes come from? rock identifies a slot chain by (key, version) and the version
-                            # is the entry's timestamp in whole seconds: a slot left over from an OLDER version of the same URL
-                            # stored within the same second is indistinguishable from the missing slot of the new chain
-                            probe = m.body[d + 8:d + 72]
-                            with lock:
-                                others = [o for r_, o in issued.get(path, {}).items() if r_ != rid]
-                            for o in others:
-                                if len(probe) >= 32 and probe in o.body:
-                                    dt = abs(getattr(o, "wall_mint", 0) - getattr(rp, "wall_mint", 0))
-                                    key += ":spliced-with-another-version-of-the-url-minted-%s" % ("within-1s" if dt <= 1.0 else "more-than-1s-apart")
-                                    break
+                        key += cause_of_foreign_bytes(key, m.body, rp, d, path, rid, typ, info, wit)
                         res.violation(f"{key}:{typ}", f"{typ}: after the crash at cache write {wit.get('nwrite')} ({info['last']}) the hit for {path} (rid {rid}) is a complete {m.framing} message with "
                                       f"{len(m.body)} body bytes; the origin's response had {len(rp.body)}; first difference at {d}", wit)
                 else:
@@ -389,7 +392,10 @@ def run(a, res):
                     res.count("hit_visibly_truncated")
                     res.grey("visibly-truncated-hit")
                     if not rp.body.startswith(m.body):
-                        res.violation(f"hit-truncated-not-prefix:{typ}", f"{typ}: visibly truncated hit for {path} (rid {rid}) whose {len(m.body)} bytes are not a prefix of the origin's body", wit)
+                        d = next((k for k in range(min(len(m.body), len(rp.body))) if m.body[k] != rp.body[k]), min(len(m.body), len(rp.body)))
+                        key = "hit-truncated-not-prefix" + cause_of_foreign_bytes("hit-body-differs", m.body, rp, d, path, rid, typ, info, wit)
+                        res.violation(f"{key}:{typ}", f"{typ}: after the crash at cache write {wit.get('nwrite')} ({info['last']}) the visibly truncated hit for {path} (rid {rid}) carries {len(m.body)} bytes "
+                                      f"that are not a prefix of the origin's body (first difference at {d})", wit)
         tlog(info["tag"], "verified")
         res.count("hits_after_restart", hits)
         res.count(f"hits_after_restart:{typ}", hits)
@@ -474,10 +480,26 @@ def run(a, res):
         """[(n, prefix length or None = crash just before write n is applied... i.e. 0 bytes of it)]"""
         recs = [x for x in read_dump(os.path.join(a.work, "rock.dump")) if x[3].endswith("/rock")]
         r = random.Random(f"C16:{seed}:rockstates")
-        idx = sorted(r.sample(range(len(recs)), min(k, len(recs))))
+        # writes of an entry's FIRST slot (DbCellHeader.firstSlot == the slot being written): the slot that carries the swap
+        # metadata; a third of the states tear such a write just behind its 40-byte header
+        import struct
+        inode = []
+        for i, (_n, _w, off, _p, data) in enumerate(recs):
+            if len(data) >= 40 and off >= 16384 and (off - 16384) % 4096 == 0:
+                first_slot = struct.unpack_from("<QQQIIii", data, 0)[5]
+                if first_slot == (off - 16384) // 4096:
+                    inode.append(i)
+        res.count("rock_replay:first_slot_writes_recorded", len(inode))
+        k_inode = min(len(inode), k // 3)
+        pick_inode = set(r.sample(inode, k_inode)) if k_inode else set()
+        rest = [i for i in range(len(recs)) if i not in pick_inode]
+        idx = sorted(set(r.sample(rest, min(k - k_inode, len(rest)))) | pick_inode)
         out = []
         for i in idx:
             ln = len(recs[i][4])
+            if i in pick_inode and ln > 44:
+                out.append((i, r.randrange(40, min(ln, 260)), "inode-head"))
+                continue
             mode = r.choice(["none", "head", "head", "sector", "uniform"])
             if mode == "none" or ln < 2:
                 pre = 0
